@@ -193,7 +193,7 @@ pub fn replay(case: &serde_json::Value) -> i32 {
 
 pub fn run(tier: Tier) -> i32 {
     let mut rep = Report::new("C15", tier);
-    rep.rule = "all operand sequences over {x,y,z,literal} up to the length bound as chains under three operator patterns with an optional unary operator on any operand, and all trees of the listed sizes over the same leaves; texts with 16..200 distinct variables and repeated variables at distinguished positions; folded, unfolded and deep-derived flat expressions; eval_vec / eval_iter vs eval on a clone-counting, default-detecting data type; distinct = distinct texts; non-trivial = some variable occurs more than once".into();
+    rep.rule = "all operand sequences over {x,y,z,literal} up to the length bound as chains under three operator patterns with an optional unary operator on any operand, and all trees of the listed sizes over the same leaves; texts with 16..257 (thorough ..300) distinct variables and repeated variables at distinguished positions; folded, unfolded and deep-derived flat expressions; eval_vec / eval_iter vs eval on a clone-counting, default-detecting data type; distinct = distinct texts; non-trivial = some variable occurs more than once".into();
     rep.assumptions = vec!["clones are counted in the data type's Clone impl, per variable value".into()];
     let t = table();
     let max_len = if tier.thorough() { 9 } else { 7 };
@@ -278,10 +278,10 @@ pub fn run(tier: Tier) -> i32 {
     // variable once, then every ordered pair (a, b) of distinguished positions repeated:
     // v0 + v1 + ... + v(n-1) + va * vb - va
     let mut big: Vec<String> = Vec::new();
-    let ns: &[usize] = if tier.thorough() { &[15, 16, 17, 31, 32, 33, 63, 64, 65, 66, 70, 127, 128, 129, 130, 200] } else { &[16, 17, 33, 64, 65, 66, 70, 130] };
+    let ns: &[usize] = if tier.thorough() { &[15, 16, 17, 31, 32, 33, 63, 64, 65, 66, 70, 127, 128, 129, 130, 200, 255, 256, 257, 258, 300] } else { &[16, 17, 33, 64, 65, 66, 70, 130, 257] };
     for &n in ns {
         let name = |i: usize| format!("v{i:03}");
-        let mut marks: Vec<usize> = [0usize, 1, 15, 16, 17, 31, 32, 33, 62, 63, 64, 65, 66, 127, 128, 129].iter().copied().filter(|m| *m < n).collect();
+        let mut marks: Vec<usize> = [0usize, 1, 15, 16, 17, 31, 32, 33, 62, 63, 64, 65, 66, 127, 128, 129, 254, 255, 256].iter().copied().filter(|m| *m < n).collect();
         marks.push(n - 1);
         marks.push(n / 2);
         marks.sort();
@@ -335,6 +335,6 @@ pub fn run(tier: Tier) -> i32 {
     for a in accs {
         rep.absorb(a);
     }
-    rep.bounds.push(format!("many variables: {} texts with n in {ns:?} distinct variables and every ordered pair of distinguished positions (0, 1, 15..17, 31..33, 62..66, 127..129, n/2, n-1) repeated: complete", big.len()));
+    rep.bounds.push(format!("many variables: {} texts with n in {ns:?} distinct variables and every ordered pair of distinguished positions (0, 1, 15..17, 31..33, 62..66, 127..129, 254..256, n/2, n-1) repeated: complete", big.len()));
     rep.finish()
 }
